@@ -23,7 +23,7 @@ from vlib import common
 BIN = {0: "add", 1: "sub", 2: "mul", 3: "div", 4: "maximum", 5: "minimum", 6: "greater", 7: "less_equal", 8: "equal",
        9: "less", 10: "greater_equal", 11: "not_equal"}
 UN = {0: "negative", 1: "absolute", 2: "square"}
-RED = {0: "sum", 1: "prod", 2: "max", 3: "min"}
+RED = {0: "sum", 1: "prod", 2: "max", 3: "min", 4: "mean"}
 FEK = ("fe", "field")
 
 
@@ -232,7 +232,7 @@ class Gen:
         r = rng.choice([0, 1, 1, 2, 2, 3])
         s = [self.d(), self.d()] + [self.d() for _ in range(r)]
         nd = len(s)
-        code = rng.choice([0, 0, 0, 1, 2, 3])
+        code = rng.choice([0, 0, 0, 1, 2, 3, 4, 4])
         t = rng.random()
         if t < 0.1:
             axis = None
@@ -249,6 +249,11 @@ class Gen:
             axis = [a if rng.random() < 0.5 else a - nd for a in axes]
         pool = [1, -1, 1, 1, -1, 2] if code == 1 else None
         how = rng.choice(["method", "np"])
+        if code == 4:
+            # mean: entries are multiples of the number of averaged entries, so the mean is an exact integer
+            red = range(nd) if axis is None else [a % nd for a in axis]
+            cnt = prod([s[a] for a in set(red)])
+            pool = [cnt * v for v in (-3, -1, 0, 1, 2, 4)]
         c = {"op": "reduce", "code": code, "axis": axis, "how": how, "kw": rng.random() < 0.7,
              "tuple": bool(axis is not None and (len(axis) > 1 or rng.random() < 0.3)),
              "args": [self.operand("fe", s, pool)]}
@@ -513,6 +518,9 @@ def directed_cases():
         C.append({"op": "reduce", "code": 0, "axis": [2, 3], "how": how, "kw": True, "tuple": True, "args": [fe([2, 2, 2, 2])]})
         C.append({"op": "reduce", "code": 0, "axis": [1, 2], "how": how, "kw": True, "tuple": True, "args": [fe([2, 2, 2, 2])]})
         C.append({"op": "reduce", "code": 2, "axis": None, "how": how, "kw": True, "tuple": False, "args": [fe([2, 2, 2])]})
+        C.append({"op": "reduce", "code": 4, "axis": [-1], "how": how, "kw": True, "tuple": False, "args": [fe([2, 2, 2, 2], [2 * ((3 * i) % 7 - 3) for i in range(16)])]})
+        C.append({"op": "reduce", "code": 4, "axis": [2, 3], "how": how, "kw": True, "tuple": True, "args": [fe([2, 2, 2, 2], [4 * ((5 * i) % 7 - 3) for i in range(16)])]})
+        C.append({"op": "reduce", "code": 4, "axis": [1], "how": how, "kw": True, "tuple": False, "args": [fe([2, 2, 2, 2], [2 * ((3 * i) % 5 - 2) for i in range(16)])]})
     # Det / Inv / Trace on non-symmetric integer matrices (det = +-1, +-2)
     mats = {1: [2], 2: [2, 1, 3, 2], 3: [1, 2, 0, 0, 1, 3, 1, 0, 2]}
     for n, m in mats.items():
@@ -606,6 +614,19 @@ def directed_cases():
             C.append({"op": "inplace", "code": code, "args": [fe([2, 2, 2, 2]), y]})
             for ok in ("fe", "plain"):
                 C.append({"op": "out", "code": code, "args": [fe([2, 2, 2, 2]), y], "out_shape": [2, 2, 2, 2], "out_kind": ok})
+    # FeArray.broadcast: every leading-axes class for tensor_ndim 0, 1, 2, with Ne = nPg = tensor
+    # dimension collisions (a bare constant tensor shaped (Ne, nPg), a (Ne,) vector with tensor_ndim=1)
+    for Ne, nPg in ((2, 2), (3, 2), (3, 3)):
+        for td in (0, 1, 2):
+            tails = [[Ne, nPg][:td], [nPg, Ne][:td], [4, 3][:td]] if td else [[]]
+            for tail in tails:
+                for lead in ([], [Ne], [nPg], [Ne, nPg], [nPg, Ne], [5], [Ne, nPg, 2]):
+                    shp = lead + tail
+                    C.append({"op": "broadcast", "Ne": Ne, "nPg": nPg, "td": td, "args": [pl(shp) if shp else {"k": "plain", "shape": [], "data": [3]}]})
+            C.append({"op": "broadcast", "Ne": Ne, "nPg": nPg, "td": td, "args": [sc(3)]})
+            C.append({"op": "broadcast", "Ne": Ne, "nPg": nPg, "td": td, "args": [fe([Ne, nPg] + [Ne, nPg][:td])]})
+            if td == 2:
+                C.append({"op": "broadcast", "Ne": Ne, "nPg": nPg, "td": td, "args": [pl([Ne])]})      # rank below tensor_ndim
     C += dtype_cases()
     # SCALED TWINS (micro-/nano-scale Jacobians, huge moduli): the same matrices times 2**e.  Det must
     # scale by 2**(n e), Inv by 2**(-e), Norm by 2**e, Normalize not at all -- exactly
@@ -792,6 +813,20 @@ def coq_expr(c):
     raise ValueError(op)
 
 
+COQ_DT = {"int64": "I64", "float32": "F32", "float64": "F64", "complex64": "C64", "complex128": "C128"}
+
+
+def coq_dtype_rule(c):
+    def od(o):
+        d = o.get("dtype", "float64")
+        if o["k"] == "scalar":
+            return {"i": "PyInt", "f": "PyFloat", "c": "PyComplex"}[d[0]]      # build_dt makes python int / float / complex
+        return "(Arr %s)" % COQ_DT[d]
+    if c["sub"] in ("add", "sub", "mul", "matmul", "dot"):
+        return "binop_dtype %s %s" % (od(c["args"][0]), od(c["args"][1]))
+    return "unop_dtype %s" % od(c["args"][0])
+
+
 def strict_errors(c):
     """exception classes are compared only where _linalg.py documents them: FeArray operands
     (no Field delegation, no reflected numpy path)"""
@@ -810,7 +845,7 @@ def coq_obs(c, r):
 
 
 HEADER = ("From Coq Require Import List Arith Bool ZArith QArith.\n"
-          "From EFModel Require Import C12_FeShape C12_FeTensor C12_FeQ.\n"
+          "From EFModel Require Import C12_FeShape C12_FeTensor C12_FeQ C12_FeDtype.\n"
           "From EFP Require Import Gen_Linalg.\nImport ListNotations.\nLocal Open Scope nat_scope.\n"
           "(* dims 1-3: the closed forms regenerated from _linalg.py; dims > 3 (numpy fallback in the source): the\n"
           "   generic Leibniz determinant / adjugate of C12_FeDetN, see coq/props/C12/C12_detn.v *)\n"
@@ -1009,7 +1044,14 @@ def correspondence(ctx, ncases, cap, per_file=400):
         body = HEADER
         for c in cases[f0:f0 + per_file]:
             r = results[c["id"]]
-            if c["op"] in ("Det", "Inv") and c.get("tol") and r["kind"] < 10:
+            if c["op"] == "dtype":
+                # values / type / shape: per-(e,p) numpy loop (implementation side); result dtype: the
+                # promotion rule of the model (join-semilattice of C12_FeDtype) against numpy's dtype
+                ok = "true" if r.get("oracle_ok") is True else "false"
+                if r["kind"] < 10:
+                    ok = "(%s && dt_opt_eqb (%s) %s)" % (ok, coq_dtype_rule(c), COQ_DT.get(r.get("dtype"), "I64 && false"))
+                body += "Eval vm_compute in (%d, %s).\n" % (c["id"], ok)
+            elif c["op"] in ("Det", "Inv") and c.get("tol") and r["kind"] < 10:
                 # numpy.linalg fallback of the source (dim > 3): floats against the exact Leibniz / adjugate of the model
                 body += "Eval vm_compute in (%d, agrees_tol (1 # 10000000000) detQ invQ (%s) %s).\n" % (c["id"], coq_expr(c), coq_obs(c, r))
             elif c.get("model") is False:
@@ -1154,6 +1196,18 @@ sys.exit(1 if bad else 0)
 '''
 
 
+TRANSLATE_REPLAY = r'''
+import sys
+from vlib import common
+from translator import C12_linalg as T
+errs = [e for e in T.generate(common.repo_path())[2] if e[0] == %(part)r]
+for part, msg in errs:
+    print("the translator (fail-closed) rejects the", part, "part of _linalg.py:", msg)
+print("the property is no longer shown for this part (no failing input)" if errs else "translator accepts the source")
+sys.exit(1 if errs else 0)
+'''
+
+
 def run(ctx):
     ctx.assumptions += [
         "the hand-written Gallina model coq/model/C12_*.v mirrors FeArray/Field dispatch; it is tied to the source by the exact differential correspondence run on every check (integer/dyadic data, exact float arithmetic) and by the regenerated Gen_Linalg.v",
@@ -1173,13 +1227,14 @@ def run(ctx):
         gen, terrs = None, []
     for part, msg in terrs:
         ctx.obligation("translate:" + part, False, msg)
-        ctx.violation("translate:" + part, "translator rejected the %s part of _linalg.py: %s" % (part, msg), {"construct": msg}, found_input=False)
+        ctx.violation("translate:" + part, "translator rejected the %s part of _linalg.py: %s" % (part, msg),
+                      {"construct": msg, "replay_py": TRANSLATE_REPLAY % {"part": part}}, found_input=False)
     failed = []
     if gen is not None:
         ctx.obligation("translate", True, json.dumps(info))
         ctx.cov["translated"] = info
         open(os.path.join(ctx.build, "Gen_Linalg.v"), "w").write(gen)
-        ctx.copy_props("C12/C12_linalg.v", "C12/C12_theorems.v", "C12/C12_field.v", "C12/C12_detn.v", "C12/C12_tensorprod.v")
+        ctx.copy_props("C12/C12_linalg.v", "C12/C12_theorems.v", "C12/C12_theorems2.v", "C12/C12_field.v", "C12/C12_detn.v", "C12/C12_tensorprod.v")
         r0 = ctx.coq(["Gen_Linalg.v"], timeout=300)       # the case files and two theorem files need it
         if not r0.ok:
             failed.append(r0)
@@ -1198,6 +1253,9 @@ def run(ctx):
 
         def grp_tp_field():
             bad = []
+            rt = ctx.coq(["C12_theorems2.v"], timeout=900)
+            if not rt.ok:
+                bad.append(rt)
             try:
                 open(os.path.join(ctx.build, "Gen_TensorProd.v"), "w").write(T_lin.generate_tensorprod(ctx.repo))
                 r4 = ctx.coq(["Gen_TensorProd.v", "C12_tensorprod.v"], timeout=300)
@@ -1224,7 +1282,7 @@ def run(ctx):
         for r in failed:
             ctx.log("proof obligations broke in %s" % r.failed_file)
         ctx.sample({"theorem": "C12_elementwise_pointwise", "statement": "forall V vbin op a c Ne nPg s, shape a = Ne::nPg::s -> (np_bcast s (shape c) = Some u -> fe op plain and plain op fe are FeArrays of shape Ne::nPg::u with res[e,p,K] = op(a[e,p,K|s], c[K|t]) in the written order) /\\ (None -> ValueError)", "assumptions": "closed under the global context"})
-    n, cap = (1700, 1200) if ctx.tier == "quick" else (8000, 2500)
+    n, cap = (1600, 1000) if ctx.tier == "quick" else (5000, 2500)
     nviol0 = len(ctx.violations)
     if gen is None:
         # the case files need the generated closed forms; without them only report the translator failure
